@@ -604,7 +604,37 @@ def _lines(ctx):
     ctx.ob("C09.lines", one, "@set_prev_node", deco == ["set_prev_node"], "" if deco == ["set_prev_node"] else "decorators changed: {}".format(deco), line=one.node.lineno)
     # cst_parser
     state_init = [n for n in iter_own(parser.node) if isinstance(n, ast.Assign) and norm(n.targets[0]) == "state" and isinstance(n.value, ast.Dict)]
-    ctx.need(len(state_init) == 1, "state initialisation vanished from cst_parser")
+    if not state_init:
+        # not a fresh literal: an alias / (shallow) copy of a module-level object?
+        other = [n for n in iter_own(parser.node) if isinstance(n, ast.Assign) and norm(n.targets[0]) == "state"]
+        ctx.need(len(other) == 1, "state initialisation vanished from cst_parser")
+        v = other[0].value
+        src = None
+        deep = False
+        if isinstance(v, ast.Call) and isinstance(v.func, ast.Attribute) and v.func.attr == "copy" and not v.args:
+            src = v.func.value
+        elif isinstance(v, ast.Call) and norm(v.func) in ("dict", "copy", "copy.copy") and len(v.args) == 1:
+            src = v.args[0]
+        elif isinstance(v, ast.Call) and norm(v.func) in ("deepcopy", "copy.deepcopy") and len(v.args) == 1:
+            src, deep = v.args[0], True
+        elif isinstance(v, (ast.Name, ast.Attribute)):
+            src = v
+        r = index.resolve(parser.mod, src, parser) if src is not None else None
+        mv = index.module_var(r) if r else None
+        ctx.need(mv is not None and isinstance(getattr(mv[1][-1], "value", None), ast.Dict), "cannot understand how cst_parser initialises its state: {}".format(short(v, 60)))
+        lit = mv[1][-1].value
+        ctx.ob(
+            "C09.lines",
+            parser,
+            other[0],
+            deep,
+            ""
+            if deep
+            else "the parser state is {} of module-level {} whose `parsed` list is then shared between calls: from the "
+            "second cst_parse in a process on, the result also contains the nodes of earlier parses (neither "
+            "lossless nor tiling)".format("an alias" if isinstance(v, (ast.Name, ast.Attribute)) else "a shallow copy", r),
+        )
+        state_init = [ast.Assign(targets=other[0].targets, value=lit, lineno=other[0].lineno)]
     d = {k.value: norm(x) for k, x in zip(state_init[0].value.keys, state_init[0].value.values) if isinstance(k, ast.Constant)}
     ok = d.get("acc") == "1" and d.get("parsed") == "[]"
     ctx.ob("C09.lines", parser, "state = {acc: 1, parsed: []}", ok, "" if ok else "line numbering must start at 1 with an empty node list: {}".format(d), line=state_init[0].lineno)
